@@ -384,7 +384,7 @@ class Data3D(Block):
             Data3dBlockFormat.byFrame,
             Data3dBlockFormat.byTrack,
         ]:
-            links = self.links if hasattr(self, "links") else []
+            links = self._link_records()
             nLinks = len(links)
 
             # nLinks
@@ -396,6 +396,17 @@ class Data3D(Block):
 
         for track in self._tracks:
             track._write(file)
+
+    def _link_records(self) -> np.ndarray:
+        """The marker links as (Track1, Track2) records, whatever container
+        `links` holds: a record array, a list of pairs or an (n, 2) array.
+        Both the size and the encoding are derived from this."""
+        links = np.asarray(self.links if hasattr(self, "links") else [])
+        if links.dtype.names is None:
+            links = np.array(
+                [tuple(pair) for pair in links.reshape(-1, 2)], dtype=LinkType.btype
+            )
+        return links
 
     @property
     def nBytes(self) -> int:
@@ -417,11 +428,7 @@ class Data3D(Block):
             links_size = (
                 4
                 + 4
-                + (
-                    LinkType.btype.itemsize * len(self.links)
-                    if hasattr(self, "links")
-                    else 0
-                )
+                + LinkType.btype.itemsize * len(self._link_records())
             )
             base += links_size
 
